@@ -52,7 +52,7 @@ static inline uint32_t mix(uint32_t a, uint32_t b) { uint32_t h = a * 2654435761
 static const float UTILS[8] = {1.0f, 2.0f, 0.5f, 3.0f, 1.0f, 4.0f, 0.25f, 1.5f};
 static const float RNDS[12] = {0.0f, 0.5f, 0.25f, 0.75f, 0.999999940395f /*1-2^-24*/, 0.99999988079f /*1-2^-23*/, 5.9604645e-8f /*2^-24*/, 0.3333333f, 0.6666667f, 0.125f, 0.9f, 0.1f};
 
-static void setEnv(Ctx& x, uint8_t envSeed, uint8_t rndSel) {
+static void setEnv(Ctx& x, uint8_t envSeed, uint8_t rndSel, bool constantRnd = false) {
 	for (int s = 0; s < HV_NS; ++s) {
 		const uint32_t h = mix(envSeed, (uint32_t) s);
 		const int w = node(s).kind == COMPO ? node(s).nsubs : 1;
@@ -60,7 +60,7 @@ static void setEnv(Ctx& x, uint8_t envSeed, uint8_t rndSel) {
 		x.util[s] = UTILS[(h >> 8) & 7];
 		x.rank[s] = (int8_t) ((h >> 12) % 3 == 0 ? 1 : 0);
 	}
-	for (int k = 0; k < 8; ++k) x.rnd[k] = RNDS[mix(rndSel, (uint32_t) k + 77u) % 12];
+	for (int k = 0; k < 8; ++k) x.rnd[k] = RNDS[mix(rndSel, (constantRnd ? 0u : (uint32_t) k) + 77u) % 12];
 }
 
 //------------------------------------------------------------------------------
@@ -78,6 +78,7 @@ struct Inst {
 	bool loggerOn = true;
 	// C03 lifecycle history
 	bool entered[HV_NS]; const void* addr[HV_NS];
+	std::vector<Req> lastFirstExpected; std::vector<uint32_t> lastFirstTags;
 	bool inUpdateOrReact = false;
 	bool outstandingMarks = false;   // success/failure marks set outside update()/react() (externally or from a guard) not yet consumed
 	bool modelValid = true;          // false after an op the configuration model does not cover (resynchronised afterwards)
@@ -106,6 +107,7 @@ struct Session {
 	std::string failure;            // first violation of the selected property
 	bool nontrivial = false;
 	// non-triviality evidence
+	bool replica = false; int loadsDiffering = 0; int orderNontrivial = 0, payloadMixed = 0, pendingJudged = 0;
 	int cfgChanges = 0, cbChecks = 0, vetoedRounds = 0, multiRound = 0, batches = 0, kindResolved = 0, reentries = 0, loads = 0, replays = 0;
 
 	Session(hv::Stats& s, const Case& c) : st(s), prop(hv::opts().prop), cs(c) {}
@@ -141,6 +143,36 @@ static bool isGuard(const Ev& e) { return e.kind == E_CB && (e.method == (uint8_
 
 //------------------------------------------------------------------------------
 
+
+//------------------------------------------------------------------------------
+// C05: expected callback order of update()/react()/query() from the active configuration and the script
+
+struct OrderModel {
+	const Cfg& cfg; std::vector<ScriptEntry> script; bool consumed = false;
+	struct Rec { int s, m, inj; };
+	std::vector<Rec> out;
+	OrderModel(const Cfg& c, const Ctx& x) : cfg(c) { for (int i = 0; i < x.nscript; ++i) script.push_back(x.script[i]); }
+	void emit(int s, Method m, int inj) {
+		out.push_back(Rec{s, (int) m, inj});
+		for (auto& e : script) if (!e.used && (e.state == s || e.state < 0) && e.method == (uint8_t) m && e.inj == inj) { e.used = true; if (e.action == A_CONSUME || (e.z & 4)) consumed = true; break; }
+	}
+	void state(int s, Method m, bool injFirst) {
+		if (isRegion(s) && node(s).headless) return;
+		if (injFirst) { if (hasInjection(s)) emit(s, m, 1); emit(s, m, 0); } else { emit(s, m, 0); if (hasInjection(s)) emit(s, m, 1); }
+	}
+	void walk(int s, Method m, bool headFirst, bool injFirst, bool stoppable) {
+		const Node& nd = node(s);
+		if (stoppable && consumed) return;
+		if (nd.kind == LEAF) { state(s, m, injFirst); return; }
+		auto subs = [&]() {
+			if (nd.kind == COMPO) { if (cfg.active[nd.compo] >= 0) walk(sub(s, cfg.active[nd.compo]), m, headFirst, injFirst, stoppable); }
+			else for (int i = 0; i < nd.nsubs; ++i) { if (stoppable && consumed) break; walk(sub(s, i), m, headFirst, injFirst, stoppable); } };
+		if (headFirst) { state(s, m, injFirst); if (!(stoppable && consumed)) subs(); }
+		else { subs(); if (!(stoppable && consumed)) state(s, m, injFirst); }
+	}
+	void phase(Method m, bool headFirst, bool injFirst, bool stoppable) { consumed = false; walk(0, m, headFirst, injFirst, stoppable); }
+};
+
 struct Walker {
 	Session& S; hv::Stats& st;
 	explicit Walker(Session& s) : S(s), st(s.st) {}
@@ -173,6 +205,8 @@ struct Walker {
 		// C01: configuration invariant through the instance's own answers
 		char why[200];
 		if (!configWellFormed(*in.fsm, expectOn, why, sizeof why)) { std::snprintf(buf, sizeof buf, "after %s (step %u): %s", what, S.stepNo, why); S.violation("C01", buf); }
+		if (S.want("C13")) for (int s = 0; s < HV_NS; ++s) if (in.fsm->isPendingEnter((StateID) s) || in.fsm->isPendingExit((StateID) s) || in.fsm->isPendingChange((StateID) s)) { std::snprintf(buf, sizeof buf, "after %s (step %u) a pending query answers true for state %d although nothing is pending", what, S.stepNo, s); S.violation("C13", buf); break; }
+		if (S.want("C13")) for (int s = 0; s < HV_NS; ++s) if (in.fsm->isScheduled((StateID) s) != in.fsm->isResumable((StateID) s)) { S.violation("C13", "isScheduled() and isResumable() disagree"); break; }
 		S.cbChecks += (int) x.cbInvariantChecks; x.cbInvariantChecks = 0;
 		lifecycle(in, what);
 	}
@@ -297,6 +331,10 @@ struct Walker {
 	void run();
 	void step(const Op& o, size_t index);
 	void firstActivation(Inst& in);
+	void saveLoad(Inst& src, Inst& dst);
+	void judgeOrder(Inst& in, const OrderModel& om, const char* what);
+	void judgeHistory(Inst& in, const char* what, const std::vector<Round>& rs, const bool wasActive[HV_NS]);
+	void replicaFollow(Inst& a, const char* what, bool singleRoundNoSchedule, bool unrecordedSchedule);
 };
 
 //------------------------------------------------------------------------------
@@ -311,6 +349,7 @@ void Walker::judgeProcessing(Inst& in, const char* what, const Cfg& before, cons
 	for (int i = 0; i < x.n && (rs.empty() || i < rs[0].firstEv); ++i) if (x.tr[i].kind == E_ACT_REQ && x.tr[i].state >= 0) { pre.push_back(Req{x.tr[i].a, x.tr[i].b}); preTags.push_back(x.tr[i].tag); }
 	std::vector<Req> firstExpected = in.queued; std::vector<uint32_t> firstTags = in.queuedTags;
 	for (size_t i = 0; i < pre.size(); ++i) { if ((int) firstExpected.size() < HV_COMPO_COUNT) { firstExpected.push_back(pre[i]); firstTags.push_back(preTags[i]); } else st.cls("queue_overflow_rejected"); }
+	in.lastFirstExpected = firstExpected; in.lastFirstTags = firstTags;
 	const bool planActivity = in.plansUsed;
 	if (rs.size() > 1) ++S.multiRound;
 	for (auto& r : rs) if (r.cancelled) ++S.vetoedRounds;
@@ -428,6 +467,12 @@ void Walker::judgeProcessing(Inst& in, const char* what, const Cfg& before, cons
 			}
 		} else if (transitionReqs >= 1) st.cls("steps_agreeing_with_model");
 	}
+	judgeHistory(in, what, rs, wasActive);
+	bool unrecordedSchedule = false; // schedule requests apply regardless of a veto but only approved rounds are recorded
+	for (auto& r : rs) if (r.cancelled) for (auto& p : r.pend) if (p.type == T_SCHEDULE) unrecordedSchedule = true;
+	if (!rs.empty()) for (auto& p : rs.back().issued) { int t = p.type, d = p.dest; saneRequest(t, d); if (t == T_SCHEDULE) unrecordedSchedule = true; }
+	if (rs.empty()) for (auto& p : firstExpected) if (p.type == T_SCHEDULE) unrecordedSchedule = true;
+	replicaFollow(in, what, rs.size() <= 1 && !hasSchedule && !(rs.size() == 1 && !rs[0].issued.empty()), unrecordedSchedule);
 	m.cfg = lib; in.modelValid = true; // resynchronise (keeps exploring behind a disagreement)
 	m.clearReq();
 }
@@ -443,7 +488,7 @@ void Walker::step(const Op& o, size_t index) {
 	Inst& in = I(); Ctx& x = in.ctx; Instance& f = *in.fsm;
 	++S.stepNo;
 	x.beginStep(S.stepNo);
-	setEnv(x, o.envSeed, o.rndSel);
+	setEnv(x, o.envSeed, o.rndSel, S.replica);
 	x.push(E_API, 0, -1, (int) index, o.kind);
 	char what[64]; std::snprintf(what, sizeof what, "%s", OPN[o.kind]);
 	const bool needOn = !(o.kind == OP_ENTER_EXIT || o.kind == OP_SAVE_LOAD || o.kind == OP_SWITCH || o.kind == OP_LOGGER);
@@ -452,13 +497,20 @@ void Walker::step(const Op& o, size_t index) {
 	bool wasActive[HV_NS]; for (int s = 0; s < HV_NS; ++s) wasActive[s] = in.on && f.isActive((StateID) s);
 	st.cls(std::string("op_") + OPN[o.kind]);
 	switch (o.kind) {
-	case OP_UPDATE: installScript(in, o); in.outstandingMarks = false; in.inUpdateOrReact = true; f.update(); afterCall(in, what, true); in.inUpdateOrReact = false; judgeProcessing(in, what, before, wasActive); break;
-	case OP_REACT_A: installScript(in, o); in.outstandingMarks = false; in.inUpdateOrReact = true; f.react(EvA{(int) o.a0}); afterCall(in, what, true); in.inUpdateOrReact = false; judgeProcessing(in, what, before, wasActive); break;
-	case OP_REACT_B: installScript(in, o); in.outstandingMarks = false; in.inUpdateOrReact = true; f.react(EvB{(int) o.a0}); afterCall(in, what, true); in.inUpdateOrReact = false; judgeProcessing(in, what, before, wasActive); break;
+	case OP_UPDATE: { installScript(in, o); in.outstandingMarks = false; in.inUpdateOrReact = true;
+		OrderModel om(before, x); om.phase(Method::PRE_UPDATE, true, true, false); om.phase(Method::UPDATE, true, true, false); om.phase(Method::POST_UPDATE, false, false, false);
+		f.update(); afterCall(in, what, true); in.inUpdateOrReact = false; judgeOrder(in, om, what); judgeProcessing(in, what, before, wasActive); break; }
+	case OP_REACT_A: { installScript(in, o); in.outstandingMarks = false; in.inUpdateOrReact = true;
+		OrderModel om(before, x); om.phase(Method::PRE_REACT, !BOTTOMUP, true, true); om.phase(Method::REACT, !BOTTOMUP, true, true); om.phase(Method::POST_REACT, BOTTOMUP, false, true);
+		f.react(EvA{(int) o.a0}); afterCall(in, what, true); in.inUpdateOrReact = false; judgeOrder(in, om, what); judgeProcessing(in, what, before, wasActive); break; }
+	case OP_REACT_B: { installScript(in, o); in.outstandingMarks = false; in.inUpdateOrReact = true;
+		OrderModel om(before, x); // an event no state handles reaches only the library's default handlers: no user callback at all
+		f.react(EvB{(int) o.a0}); afterCall(in, what, true); in.inUpdateOrReact = false; judgeOrder(in, om, what); judgeProcessing(in, what, before, wasActive); break; }
 	case OP_QUERY: case OP_QUERY_B: {
 		installScript(in, o);
+		OrderModel om(before, x); if (o.kind == OP_QUERY) om.phase(Method::QUERY, !BOTTOMUP, false, true);
 		if (o.kind == OP_QUERY) { EvA e{(int) o.a0}; const_cast<const Instance&>(f).query(e); } else { EvB e{(int) o.a0}; const_cast<const Instance&>(f).query(e); }
-		afterCall(in, what, true);
+		afterCall(in, what, true); judgeOrder(in, om, what);
 		const Cfg after = readCfg(f);
 		if (!after.sameActive(before) || !after.sameResumable(before)) S.violation("C05", "query() changed the configuration");
 		for (int i = 0; i < x.n; ++i) if (x.tr[i].kind == E_CB && x.tr[i].method != (uint8_t) Method::QUERY) { S.violation("C05", std::string("query() invoked ") + MN[x.tr[i].method]); break; }
@@ -493,15 +545,23 @@ void Walker::step(const Op& o, size_t index) {
 		Model fresh; fresh.env = Env{x.sel, x.util, x.rank, x.rnd, 0}; fresh.initial();
 		const Cfg lib = readCfg(f);
 		if (!fresh.randomNone && !(RNG_BUILTIN && fresh.usedRandom) && (!lib.sameActive(fresh.cfg) || !lib.sameResumable(fresh.cfg))) S.violation("C02", "reset() did not re-activate the machine as its first activation would: library " + lib.str() + " prescribed " + fresh.cfg.str());
-		in.model.cfg = lib; ++S.cfgChanges; break; }
+		in.model.cfg = lib; ++S.cfgChanges;
+		if (S.replica && S.inst[1]->on) { Inst& b = *S.inst[1]; b.ctx.beginStep(S.stepNo); std::memcpy(b.ctx.sel, x.sel, sizeof x.sel); std::memcpy(b.ctx.util, x.util, sizeof x.util); std::memcpy(b.ctx.rank, x.rank, sizeof x.rank); std::memcpy(b.ctx.rnd, x.rnd, sizeof x.rnd);
+			b.fsm->reset(); afterCall(b, "reset (replica)", true); b.model.cfg = readCfg(*b.fsm); enteredMatchesActive(b, "reset (replica)"); }
+		break; }
 	case OP_ENTER_EXIT:
 		if (!MANUAL) break;
 #ifdef HV_MANUAL
 		if (in.on) { f.exit(); in.on = false; afterCall(in, "exit()", false); in.queued.clear(); in.queuedTags.clear(); in.model.off();
 			for (int s = 0; s < HV_NS; ++s) if (in.entered[s]) { char b[120]; std::snprintf(b, sizeof b, "state %d still entered after exit() returned", s); S.violation("C03", b); in.entered[s] = false; } }
 		else { x.initialActivation = true; f.enter(); x.initialActivation = false; in.on = true; afterCall(in, "enter()", true); firstActivation(in); }
+		if (S.replica) { Inst& b = *S.inst[1]; b.ctx.beginStep(S.stepNo); std::memcpy(b.ctx.sel, x.sel, sizeof x.sel); std::memcpy(b.ctx.util, x.util, sizeof x.util); std::memcpy(b.ctx.rank, x.rank, sizeof x.rank); std::memcpy(b.ctx.rnd, x.rnd, sizeof x.rnd);
+			if (!in.on && b.on) { b.fsm->exit(); b.on = false; afterCall(b, "exit() (replica)", false); for (auto& e : b.entered) e = false; b.model.off(); }
+			else if (in.on && !b.on) { b.ctx.initialActivation = true; b.fsm->enter(); b.ctx.initialActivation = false; b.on = true; afterCall(b, "enter() (replica)", true); firstActivation(b); } }
 #endif
 		break;
+	case OP_SWITCH: if (S.inst[1] && !S.replica) S.cur ^= 1; break;
+	case OP_SAVE_LOAD: if (S.inst[1] && !S.replica) saveLoad(in, *S.inst[S.cur ^ 1]); break;
 	case OP_LOGGER: in.loggerOn = !in.loggerOn; f.attachLogger(in.loggerOn ? &in.logger : nullptr); break;
 	default: break;
 	}
@@ -509,6 +569,186 @@ void Walker::step(const Op& o, size_t index) {
 	if (hv::opts().extra == 1) { std::printf("-- step %u %s\n", S.stepNo, what); dumpTrace(x); }
 }
 
+
+
+//------------------------------------------------------------------------------
+
+void Walker::judgeOrder(Inst& in, const OrderModel& om, const char* what) {
+	Ctx& x = in.ctx; if (x.overflow) return;
+	std::vector<OrderModel::Rec> got;
+	for (int i = 0; i < x.n; ++i) { const Ev& e = x.tr[i]; if (e.kind != E_CB) continue;
+		const Method m = (Method) e.method;
+		if (m == Method::PRE_UPDATE || m == Method::UPDATE || m == Method::POST_UPDATE || m == Method::PRE_REACT || m == Method::REACT || m == Method::POST_REACT || m == Method::QUERY) got.push_back(OrderModel::Rec{e.state, e.method, e.a}); }
+	bool same = got.size() == om.out.size();
+	for (size_t i = 0; same && i < got.size(); ++i) same = got[i].s == om.out[i].s && got[i].m == om.out[i].m && got[i].inj == om.out[i].inj;
+	bool consumedSomewhere = false, consumedInOrtho = false, injActive = false;
+	for (auto& r : om.out) if (r.inj) injActive = true;
+	for (int i = 0; i < x.n; ++i) if (x.tr[i].kind == E_ACT_CONSUME) { consumedSomewhere = true; for (int c = node(x.tr[i].state).parent; c >= 0; c = node(c).parent) if (node(c).kind == ORTHO) consumedInOrtho = true; if (isRegion(x.tr[i].state)) consumedInOrtho = true; }
+	if (consumedSomewhere) st.cls("order_steps_with_consumption"); if (consumedInOrtho) st.cls("order_consumed_in_orthogonal_or_at_head"); if (injActive) st.cls("order_steps_with_injected_handler");
+	if (consumedInOrtho || injActive) ++S.orderNontrivial;
+	st.cls("order_steps_compared");
+	if (!same) {
+		std::ostringstream o; o << "callback order of " << what << " (step " << S.stepNo << ") differs: library";
+		for (auto& r : got) o << " " << r.s << "." << MN[r.m] << (r.inj ? "(inj)" : "");
+		o << " | documented";
+		for (auto& r : om.out) o << " " << r.s << "." << MN[r.m] << (r.inj ? "(inj)" : "");
+		S.violation("C05", o.str());
+	}
+}
+
+//------------------------------------------------------------------------------
+// C09 / C13 / C14 parts that need the rounds of the step
+
+void Walker::judgeHistory(Inst& in, const char* what, const std::vector<Round>& rs, const bool wasActive[HV_NS]) {
+	Ctx& x = in.ctx; Instance& f = *in.fsm; char buf[500];
+	std::vector<Req> expect; std::vector<uint32_t> etags; int approved = 0;
+	for (auto& r : rs) if (!r.cancelled) { ++approved; for (size_t i = 0; i < r.pend.size(); ++i) { expect.push_back(r.pend[i]); etags.push_back(r.tags[i]); } }
+	const auto& prev = f.previousTransitions();
+	// A request whose destination is a region without composite ancestor alters nothing but orthogonal request marks: its round is
+	// approved (and recorded) without any guard being reached, so the trace shows no round for it.
+	auto degenerate = [](const Req& r) { if (r.type == T_SCHEDULE) return true; if (r.dest <= 0) return false; for (int c = node(r.dest).parent; c >= 0; c = node(c).parent) if (node(c).kind != ORTHO) return false; return true; };
+	if (prev.count() != expect.size()) {
+		std::vector<Req> extra; std::vector<uint32_t> extraTags;
+		if (rs.empty()) { extra = in.lastFirstExpected; extraTags = in.lastFirstTags; }
+		else if ((int) rs.size() < HV_SUBST_LIMIT) for (int i = rs.back().firstEv; i <= rs.back().lastEv; ++i) if (x.tr[i].kind == E_ACT_REQ && (int) extra.size() < HV_COMPO_COUNT) { Req q{x.tr[i].a, x.tr[i].b}; extra.push_back(q); extraTags.push_back(x.tr[i].tag); }
+		bool allDegenerate = !extra.empty(), anyTransition = false; for (auto& r : extra) { if (!degenerate(r)) allDegenerate = false; if (r.type != T_SCHEDULE) anyTransition = true; }
+		if (allDegenerate && anyTransition && prev.count() == expect.size() + extra.size()) { st.cls("history_guardless_round"); for (size_t i = 0; i < extra.size(); ++i) { expect.push_back(extra[i]); etags.push_back(extraTags[i]); } ++approved; }
+	}
+	bool same = prev.count() == expect.size();
+	for (unsigned i = 0; same && i < prev.count(); ++i) same = (int) prev[i].type == expect[i].type && (int) prev[i].destination == expect[i].dest;
+	if (!same) {
+		std::ostringstream o; o << "previousTransitions() after " << what << " (step " << S.stepNo << ") holds";
+		for (unsigned i = 0; i < prev.count(); ++i) o << " " << TTN[(int) prev[i].type % 7] << "->" << (int) prev[i].destination;
+		o << " but the approved rounds were"; for (auto& p : expect) o << " " << TTN[p.type] << "->" << p.dest; o << " (" << rs.size() << " rounds)";
+		S.violation("C09", o.str());
+	} else {
+		if (expect.size() >= 2) st.cls("history_steps_with_2plus_transitions");
+		for (unsigned i = 0; i < prev.count(); ++i) if (tagOf(prev[i]) != etags[i]) { std::snprintf(buf, sizeof buf, "previousTransitions()[%u] (%s -> %d) carries payload tag %x, it was requested with %x (%s, step %u)", i, TTN[expect[i].type], expect[i].dest, tagOf(prev[i]), etags[i], what, S.stepNo); S.violation("C14", buf); }
+#if HV_PAYLOAD != 0
+		for (unsigned i = 0; i < prev.count(); ++i) if (prev[i].payload() && (reinterpret_cast<uintptr_t>(prev[i].payload()) % alignof(Payload)) != 0) S.violation("C14", "payload storage is not aligned for the payload type");
+#endif
+	}
+	// lastTransitionTo: null or an entry of the array
+	for (int s = 0; s < HV_NS; ++s) {
+		const auto* lt = f.lastTransitionTo((StateID) s);
+		if (lt && !(prev.count() && lt >= &prev[0] && lt <= &prev[prev.count() - 1])) { std::snprintf(buf, sizeof buf, "lastTransitionTo(%d) points outside previousTransitions() (%s, step %u)", s, what, S.stepNo); S.violation("C09", buf); }
+	}
+	const bool single = approved == 1 && expect.size() == 1 && expect[0].type != T_SCHEDULE && same;
+	if (single) {
+		st.cls("history_single_request_steps");
+		// states on the destination path that the request activated are pinned to it
+		for (int c = expect[0].dest; c > 0; c = node(c).parent) {
+			if (wasActive[c] || !f.isActive((StateID) c)) continue;
+			const auto* lt = f.lastTransitionTo((StateID) c);
+			// F15: requests issued by guards that do not alter the requested configuration are applied without a round and re-pin the states
+			if (lt != &prev[0] && !rs.empty() && !rs.back().issued.empty() && S.known("F15")) continue;
+			// F30: a vetoed round wipes the pins of the rounds approved before it
+			{ bool vetoAfterApproval = false, seenApproved = false; for (auto& r : rs) { if (!r.cancelled) seenApproved = true; else if (seenApproved) vetoAfterApproval = true; }
+			  if (lt == nullptr && vetoAfterApproval && S.known("F30")) continue; }
+			if (lt != &prev[0]) { std::snprintf(buf, sizeof buf, "state %d was activated by the single approved request %s->%d but lastTransitionTo(%d) is %s (%s, step %u)", c, TTN[expect[0].type], expect[0].dest, c, lt ? "another entry" : "null", what, S.stepNo); S.violation("C09", buf); }
+			else if (tagOf(*lt) != etags[0]) { std::snprintf(buf, sizeof buf, "lastTransitionTo(%d) carries payload tag %x, requested with %x (%s, step %u)", c, tagOf(*lt), etags[0], what, S.stepNo); S.violation("C14", buf); }
+		}
+	}
+	// C14: what the lifecycle callbacks saw in currentTransitions()
+	if (x.observePayload) {
+		uint32_t h = 2166136261u; for (size_t i = 0; i < expect.size(); ++i) { h = (h ^ (uint32_t) expect[i].type) * 16777619u; h = (h ^ (uint32_t) expect[i].dest) * 16777619u; h = (h ^ etags[i]) * 16777619u; }
+		bool mixed = false, with = false, without = false; for (auto t : etags) { if (t == NO_TAG) without = true; else with = true; } mixed = with && without;
+		if (mixed) { st.cls("payload_steps_mixed_batch"); ++S.payloadMixed; } if (with) st.cls("payload_steps_with_payload");
+		for (int i = 0; i < x.n; ++i) if (x.tr[i].kind == E_CUR && ((size_t) x.tr[i].a != expect.size() || x.tr[i].tag != h)) {
+			std::snprintf(buf, sizeof buf, "a lifecycle callback saw currentTransitions() with %d entries (digest %x); the approved transitions are %zu (digest %x) (%s, step %u)", x.tr[i].a, x.tr[i].tag, expect.size(), h, what, S.stepNo); S.violation("C14", buf); break; }
+	}
+	// C13: pending queries evaluated by the guards of a single pending request
+	if (x.observePending && rs.size() == 1 && !rs[0].cancelled && rs[0].pend.size() == 1 && rs[0].pend[0].type != T_SCHEDULE && x.npend == 1) {
+		st.cls("pending_single_request_steps"); ++S.pendingJudged;
+		bool touched[HV_NS] = {false}; for (int i = 0; i < x.n; ++i) if (isLifecycle(x.tr[i])) touched[x.tr[i].state] = true;
+		for (int s = 0; s < HV_NS; ++s) {
+			const bool now = f.isActive((StateID) s), ent = !wasActive[s] && now, ext = wasActive[s] && !now;
+			const bool headless = isRegion(s) && node(s).headless;
+			const uint8_t t = x.pendTable[0][s]; const bool pe = t & 1, px = t & 2, pc = t & 4;
+			const char* bad = nullptr;
+			if (ent) { if (!pe) bad = "is about to be entered but isPendingEnter is false"; else if (px) bad = "is about to be entered but isPendingExit is true"; else if (!pc) bad = "is about to be entered but isPendingChange is false"; }
+			else if (ext) { if (!px) bad = "is about to be exited but isPendingExit is false"; else if (pe) bad = "is about to be exited but isPendingEnter is true"; else if (!pc) bad = "is about to be exited but isPendingChange is false"; }
+			else if (!touched[s] && !(headless && wasActive[s])) { if (pe) bad = "is not affected but isPendingEnter is true"; else if (px) bad = "is not affected but isPendingExit is true"; else if (pc) bad = "is not affected but isPendingChange is true"; }
+			if (bad) { std::snprintf(buf, sizeof buf, "guards of the single pending request %s->%d: state %d %s (%s, step %u)", TTN[rs[0].pend[0].type], rs[0].pend[0].dest, s, bad, what, S.stepNo); S.violation("C13", buf); break; }
+		}
+	}
+}
+
+
+//------------------------------------------------------------------------------
+// C08: save(src) -> load(dst)
+
+void Walker::saveLoad(Inst& src, Inst& dst) {
+	static_assert(Instance::SerialBuffer::BIT_CAPACITY == HV_SERIAL_BITS, "serialization buffer size does not follow from the structure");
+	struct Guarded { uint8_t pre[64]; Instance::SerialBuffer buf; uint8_t post[64]; };
+	Guarded g, g2; std::memset(g.pre, 0xA5, 64); std::memset(g.post, 0x5A, 64); std::memcpy(&g2, &g, sizeof g);
+	std::memset(g.buf.data(), 0xEE, Instance::SerialBuffer::BYTE_COUNT); std::memset(g2.buf.data(), 0x11, Instance::SerialBuffer::BYTE_COUNT);
+	char buf[400];
+	if (!MANUAL && !(src.on && dst.on)) return;
+	const Cfg cs = src.on ? readCfg(*src.fsm) : Cfg{};
+	const Cfg cdBefore = dst.on ? readCfg(*dst.fsm) : Cfg{};
+	bool srcAct[HV_NS], srcRes[HV_NS], dstWas[HV_NS];
+	for (int s = 0; s < HV_NS; ++s) { srcAct[s] = src.on && src.fsm->isActive((StateID) s); srcRes[s] = src.on && src.fsm->isResumable((StateID) s); dstWas[s] = dst.on && dst.fsm->isActive((StateID) s); }
+	src.ctx.beginStep(S.stepNo);
+	const_cast<const Instance&>(*src.fsm).save(g.buf);
+	for (int i = 0; i < src.ctx.n; ++i) if (src.ctx.tr[i].kind == E_CB) { S.violation("C08", std::string("save() invoked ") + MN[src.ctx.tr[i].method]); break; }
+	if (src.on) { const Cfg after = readCfg(*src.fsm); if (!after.sameActive(cs) || !after.sameResumable(cs)) S.violation("C08", "save() changed the saved instance"); }
+	for (int i = 0; i < 64; ++i) if (g.pre[i] != 0xA5 || g.post[i] != 0x5A) { S.violation("C08", "save() wrote outside the serialization buffer"); break; }
+	Ctx& x = dst.ctx; x.beginStep(S.stepNo);
+	x.initialActivation = !dst.on;
+	dst.fsm->load(g.buf);
+	x.initialActivation = false;
+	const bool dstOnBefore = dst.on;
+	dst.on = src.on;
+	++S.loads; st.cls("loads"); if (!cs.sameActive(cdBefore)) { st.cls("loads_into_a_different_configuration"); ++S.loadsDiffering; }
+	if (!dstOnBefore || !src.on) st.cls("loads_involving_an_inactive_instance");
+	afterCall(dst, "load()", dst.on);
+	if (dst.on) {
+		for (int s = 0; s < HV_NS; ++s) {
+			if (dst.fsm->isActive((StateID) s) != srcAct[s]) { std::snprintf(buf, sizeof buf, "after load() isActive(%d) is %d in the loaded instance and %d in the saved one (step %u)", s, (int) !srcAct[s], (int) srcAct[s], S.stepNo); S.violation("C08", buf); break; }
+			if (dst.fsm->isResumable((StateID) s) != srcRes[s]) { std::snprintf(buf, sizeof buf, "after load() isResumable(%d) is %d in the loaded instance and %d in the saved one (step %u)", s, (int) !srcRes[s], (int) srcRes[s], S.stepNo); S.violation("C08", buf); break; }
+		}
+	}
+	// exit for every state that stops being active, enter for every state that becomes active - exactly once
+	int enters[HV_NS] = {0}, exits[HV_NS] = {0};
+	for (int i = 0; i < x.n; ++i) { const Ev& e = x.tr[i]; if (e.kind == E_CB && e.a == 0) { if (e.method == (uint8_t) Method::ENTER) ++enters[e.state]; if (e.method == (uint8_t) Method::EXIT) ++exits[e.state]; if (isGuard(e)) S.violation("C08", "load() consulted a guard"); } }
+	for (int s = 0; s < HV_NS; ++s) { if (isRegion(s) && node(s).headless) continue;
+		if (dstWas[s] && !srcAct[s] && exits[s] != 1) { std::snprintf(buf, sizeof buf, "load(): state %d stops being active but received exit %d times (step %u)", s, exits[s], S.stepNo); S.violation("C08", buf); }
+		if (!dstWas[s] && srcAct[s] && enters[s] != 1) { std::snprintf(buf, sizeof buf, "load(): state %d becomes active but received enter %d times (step %u)", s, enters[s], S.stepNo); S.violation("C08", buf); } }
+	const_cast<const Instance&>(*dst.fsm).save(g2.buf);
+	if (std::memcmp(g.buf.data(), g2.buf.data(), Instance::SerialBuffer::BYTE_COUNT) != 0) { std::snprintf(buf, sizeof buf, "saving the loaded instance gives a different buffer than the one it was loaded from (step %u)", S.stepNo); S.violation("C08", buf); }
+	for (int i = 0; i < 64; ++i) if (g2.pre[i] != 0xA5 || g2.post[i] != 0x5A) { S.violation("C08", "save() wrote outside the serialization buffer"); break; }
+	dst.queued.clear(); dst.queuedTags.clear(); dst.outstandingMarks = false;
+	if (dst.on) { dst.model.cfg = readCfg(*dst.fsm); enteredMatchesActive(dst, "load()"); }
+	else { dst.model.off(); for (int s = 0; s < HV_NS; ++s) if (dst.entered[s]) { std::snprintf(buf, sizeof buf, "state %d still entered after loading an inactive instance", s); S.violation("C03", buf); dst.entered[s] = false; } }
+}
+
+//------------------------------------------------------------------------------
+// C09: the replica follows the authority by replaying its recorded transitions
+
+void Walker::replicaFollow(Inst& a, const char* what, bool singleRoundNoSchedule, bool unrecordedSchedule) {
+	if (!S.replica || !S.inst[1] || &a != S.inst[0].get()) return;
+	Inst& b = *S.inst[1]; char buf[400];
+	if (!a.on || !b.on) return;
+	const auto& prev = a.fsm->previousTransitions();
+	Ctx& x = b.ctx; x.beginStep(S.stepNo);
+	if (prev.count()) {
+		std::memcpy(x.sel, a.ctx.sel, sizeof x.sel); std::memcpy(x.util, a.ctx.util, sizeof x.util); std::memcpy(x.rank, a.ctx.rank, sizeof x.rank); std::memcpy(x.rnd, a.ctx.rnd, sizeof x.rnd);
+		const bool ok = b.fsm->replayTransitions(prev);
+		++S.replays; st.cls("replays");
+		afterCall(b, "replayTransitions", true);
+		for (int i = 0; i < x.n; ++i) if (isGuard(x.tr[i])) { S.violation("C09", std::string("replayTransitions() consulted a guard (") + what + ")"); break; }
+		if (!ok) S.violation("C09", "replayTransitions() refused the authority's recorded transitions");
+	}
+	const Cfg ca = readCfg(*a.fsm), cb = readCfg(*b.fsm);
+	if (unrecordedSchedule) st.cls("replica_steps_with_unrecorded_schedule");
+	else if (!ca.sameActive(cb)) { std::snprintf(buf, sizeof buf, "after replaying step %u (%s) the replica's active configuration %s differs from the authority's %s", S.stepNo, what, cb.str().c_str(), ca.str().c_str()); S.violation("C09", buf); }
+	else if (prev.count() && singleRoundNoSchedule && !ca.sameResumable(cb)) { std::snprintf(buf, sizeof buf, "after replaying single-round step %u (%s) the replica's resumable marks %s differ from the authority's %s", S.stepNo, what, cb.str().c_str(), ca.str().c_str()); S.violation("C09", buf); }
+	if (!ca.sameActive(cb) || !ca.sameResumable(cb)) { // resynchronise through save/load
+		Instance::SerialBuffer buf2; a.fsm->save(buf2); x.beginStep(S.stepNo); b.fsm->load(buf2); lifecycle(b, "resync"); st.cls("replica_resync"); }
+	b.model.cfg = readCfg(*b.fsm);
+	enteredMatchesActive(b, "replay");
+}
 
 //------------------------------------------------------------------------------
 // first activation (constructor, enter()): every region chooses by its declared default
@@ -532,6 +772,7 @@ void Walker::firstActivation(Inst& in) {
 void Walker::run() {
 	const Case& c = S.cs;
 	const bool two = (c.hdr[1] & 1) != 0;
+	S.replica = two && S.want("C09");
 	for (int k = 0; k < (two ? 2 : 1); ++k) {
 		S.inst[k].reset(new Inst());
 		Inst& in = *S.inst[k];
@@ -539,7 +780,7 @@ void Walker::run() {
 		in.ctx.observeConfig = true;
 		in.ctx.observePending = S.want("C13");
 		in.ctx.observePayload = S.want("C14");
-		setEnv(in.ctx, c.hdr[2], c.hdr[3]);
+		setEnv(in.ctx, c.hdr[2], c.hdr[3], S.replica);
 		in.ctx.beginStep(0);
 		in.ctx.initialActivation = true;
 		hv::breaks() = hv::BreakLatch{};
@@ -549,7 +790,7 @@ void Walker::run() {
 			char why[200];
 			if (!configWellFormed(*in.fsm, false, why, sizeof why)) S.violation("C01", std::string("before enter(): ") + why);
 #ifdef HV_MANUAL
-			if (!(c.hdr[1] & (2 << k))) { in.fsm->enter(); in.on = true; afterCall(in, "enter()", true); firstActivation(in); }
+			if (!(c.hdr[1] & (2 << (S.replica ? 0 : k)))) { in.fsm->enter(); in.on = true; afterCall(in, "enter()", true); firstActivation(in); }
 #endif
 		}
 		in.ctx.initialActivation = false;
@@ -593,6 +834,11 @@ static std::string hv_run(const hv::Bytes& b, hv::Stats& st) {
 	else if (p == "C02") nt = S.kindResolved >= 1 || S.batches >= 1;
 	else if (p == "C03") nt = S.reentries >= 1 || S.loads + S.replays >= 1 || S.cfgChanges >= 2;
 	else if (p == "C04") nt = S.vetoedRounds >= 1 || S.multiRound >= 1;
+	else if (p == "C05") nt = S.orderNontrivial >= 1;
+	else if (p == "C08") nt = S.loadsDiffering >= 1;
+	else if (p == "C09") nt = S.replays >= 1 && (S.vetoedRounds >= 1 || S.batches >= 1 || S.multiRound >= 1);
+	else if (p == "C13") nt = S.pendingJudged >= 1 && S.kindResolved >= 1;
+	else if (p == "C14") nt = S.payloadMixed >= 1;
 	else nt = S.cfgChanges >= 1;
 	if (nt && S.failure.empty() && st.nontrivial.insert(hv::fnv(b)).second && st.wantSample("case", 3)) st.addSample("case", hv_render(b));
 	return S.failure;
@@ -647,7 +893,7 @@ static rc::Gen<hv::Bytes> hv_gen() {
 			for (int i = 0; i < 7; ++i) r[1 + i] = std::get<1>(t)[i];
 			for (int e = 0; e < 4; ++e) for (int i = 0; i < 6; ++i) r[8 + e * 6 + i] = std::get<2>(t)[e][i];
 			return r; });
-	const bool two = p == "C08";
+	const bool two = p == "C08" || p == "C09";
 	return gen::map(gen::tuple(gen::container<std::vector<uint8_t>>(HDR, hv::byte()), gen::container<std::vector<std::array<uint8_t, REC>>>(op)),
 		[two](const std::tuple<std::vector<uint8_t>, std::vector<std::array<uint8_t, REC>>>& t) {
 			hv::Bytes b = std::get<0>(t);
